@@ -330,7 +330,7 @@ class OffsetDateTime:
         :return: The instant represented by this value, in the specified time zone.
         """
         _Preconditions._check_not_null(zone, "zone")
-        return self.to_instant().in_zone(zone=zone)
+        return self.to_instant().in_zone(zone=zone, calendar=self.calendar)
 
     def to_aware_datetime(self) -> datetime:
         """Returns an aware ``datetime.datetime`` correspdonding to this offset date and time.
